@@ -53,7 +53,23 @@ pub const EXTERNS: &[&str] = &[
     "ext_fail", "ext_wide", "ext_upto", "ext_ws",
 ];
 
+/// with this salt (reachable only through the user context) every value-dependent hook panics: an aborted parse in the
+/// middle of a history
+pub const PANIC_SALT: u64 = u64::MAX;
+
+thread_local! {
+    static PANIC_MODE: std::cell::Cell<bool> = std::cell::Cell::new(false);
+}
+/// while set, every value-dependent check function called on this thread panics (hooks without a user context have no
+/// other channel)
+pub fn set_panic_mode(on: bool) {
+    PANIC_MODE.with(|p| p.set(on));
+}
+
 pub fn decide_check(name: &str, debug: &str, salt: u64) -> bool {
+    if (salt == PANIC_SALT || PANIC_MODE.with(|p| p.get())) && name != "chk_true" {
+        panic!("VERIF_HOOK_PANIC");
+    }
     match name {
         "chk_true" => true,
         "chk_false" => false,
